@@ -319,7 +319,112 @@ def replay(v):
         if not np.array_equal(fr, keep):
             return {"reproduced": True, "key": "generate_times modifies the caller's array", "detail": f"input {keep.tolist()} became {fr.tolist()} (observation time {g.sourceOBSTime} s)"}
         return {"reproduced": False, "key": None, "detail": "input array unchanged"}
+    stage = ob.split("/", 1)[-1].split(":", 1)[0].strip()
+    real = _real_stage(stage)
+    if real is not None:
+        fn, cols = real
+        bad = _real_order_check(fn, cols)
+        if bad:
+            return {"reproduced": True, "key": f"{stage}: {bad[0]}", "detail": bad[1]}
+        return {"reproduced": False, "key": None, "detail": "real stage: inputs untouched, permutation / split / repeat invariant on the probe batch"}
     return {"reproduced": False, "key": None, "detail": "no numeric replay for this stage"}
+
+
+def _real_stage(stage):
+    """-> (callable(cols dict) -> tuple of arrays, probe batch as dict of NumPy arrays) for the REAL stage, or None.
+    The probe batches mix every regime of the stage (below / inside / above the table range, zero and non-zero
+    entries): a replay only has to exhibit ONE failing batch."""
+    import warnings
+
+    import numpy as np
+
+    warnings.simplefilter("ignore")
+    rng = np.random.default_rng(11)
+    if stage in ("Taus.tau_energy", "Taus.tau_exit_prob", "grid_cdf_sampler"):
+        from nuspacesim.config import NssConfig
+        from nuspacesim.simulation.taus.taus import Taus
+
+        T = Taus(NssConfig())
+        b0, b1 = float(T.tau_cdf_grid["beta_rad"][0]), float(T.tau_cdf_grid["beta_rad"][-1])
+        beta = np.array([b0 * 0.3, b0 * 1.5, 0.5 * (b0 + b1), b1 * 1.2, b0 * 0.9, 0.3 * b1, b0 * 0.5, 0.7 * b1])
+        logE = np.array([8.0, 8.3, 9.1, 9.5, 10.2, 8.7, 9.9, 10.4])
+        u = rng.uniform(0.05, 0.95, beta.size)
+        if stage == "Taus.tau_energy":
+            return (lambda c: (T.tau_energy(c["beta"], c["logE"], c["u"]),)), {"beta": beta, "logE": logE, "u": u}
+        if stage == "Taus.tau_exit_prob":
+            return (lambda c: (T.tau_exit_prob(c["beta"], c["logE"]),)), {"beta": beta, "logE": logE}
+        from nuspacesim.utils.cdf import grid_cdf_sampler
+
+        sample = grid_cdf_sampler(T.tau_cdf_grid)
+        inb = np.clip(beta, b0, b1)
+        return (lambda c: (sample(c["logE"], c["beta"], c["u"]),)), {"logE": logE, "beta": inb, "u": u}
+    if stage == "vec_1d_interp":
+        from nuspacesim.utils.interp import vec_1d_interp
+
+        ys = np.linspace(0.0, 1.0, 6)
+        xs = np.sort(rng.uniform(0, 10, (8, 6)), axis=1)
+        x = np.array([0.5 * (r[0] + r[-1]) for r in xs])
+        return (lambda c: (vec_1d_interp(c["xs"], ys, c["x"]),)), {"xs": xs, "x": x}
+    if stage in ("EAS.altDec", "EAS.__call__"):
+        from nuspacesim.config import NssConfig
+        from nuspacesim.simulation.eas_optical.eas import EAS
+
+        eas = object.__new__(EAS)
+        eas.config = NssConfig()
+        n = 8
+        if stage == "EAS.altDec":
+            cols = {"beta": rng.uniform(0.02, 0.7, n), "tauBeta": np.full(n, 0.9999999), "tauLorentz": 10 ** rng.uniform(5, 8, n), "u": rng.uniform(0.05, 0.95, n)}
+            return (lambda c: tuple(eas.altDec(c["beta"], c["tauBeta"], c["tauLorentz"], c["u"]))), cols
+
+        def kernel(beta, a, E, lat, lon, cloudf=None):  # per-event function of the event's own values
+            return 1e3 * np.sin(beta) * (1 + a) * E * (2 + np.cos(lat + lon)), 0.5 + 0.4 * np.cos(beta + a + lat) ** 2
+
+        eas.CphotAng = kernel
+        cols = {"beta": rng.uniform(0.02, 0.7, n), "altDec": np.array([1.0, 25.0, 3.0, -0.5, 19.0, 7.0, 40.0, 0.2]), "E": 10 ** rng.uniform(-1, 2, n),
+                "lat": rng.uniform(-1, 1, n), "lon": rng.uniform(-3, 3, n)}
+        return (lambda c: tuple(eas(c["beta"], c["altDec"], c["E"], c["lat"], c["lon"], cloudf=None))), cols
+    if stage == "calculate_snr":
+        from nuspacesim.simulation.eas_radio.radio_antenna import calculate_snr
+
+        return (lambda c: (calculate_snr(c["E"], (30, 80), 525.0, 10, 1.8),)), {"E": 10 ** rng.uniform(-7, -4, (8, 5))}
+    return None
+
+
+def _real_order_check(fn, cols):
+    """real arrays through the real stage: (what, detail) for the first broken clause, else None"""
+    import itertools as it
+
+    import numpy as np
+
+    def cp(idx=None):
+        return {k: (v.copy() if idx is None else v[list(idx)].copy()) for k, v in cols.items()}
+
+    n = len(next(iter(cols.values())))
+    same = lambda a, b: np.array_equal(np.asarray(a), np.asarray(b), equal_nan=True)  # noqa
+    given = cp()
+    base = [np.array(o) for o in fn(given)]
+    for k in cols:
+        if not same(given[k], cols[k]):
+            i = int(np.flatnonzero(~np.isclose(np.asarray(given[k], float).reshape(n, -1), np.asarray(cols[k], float).reshape(n, -1)).all(axis=1))[0])
+            return "modifies the caller's input array", f"input column '{k}': event {i} was {cols[k][i]!r}, is {given[k][i]!r} after the call"
+    again = [np.array(o) for o in fn(cp())]
+    if not all(same(a, b) for a, b in zip(again, base)):
+        return "a repeated call with the same inputs gives different results", f"first {base[0][:4]}, second {again[0][:4]}"
+    rng = np.random.default_rng(5)
+    perms = [list(reversed(range(n))), list(rng.permutation(n)), list(range(1, n)) + [0]]
+    for perm in perms:
+        out = [np.array(o) for o in fn(cp(perm))]
+        for o, b in zip(out, base):
+            if not same(o, b[perm]):
+                j = int(np.flatnonzero(~(np.isclose(o.reshape(n, -1), b[perm].reshape(n, -1), rtol=0, atol=0, equal_nan=True).all(axis=1)))[0])
+                return "results depend on the order of the events", f"permutation {perm}: position {j} (event {perm[j]}) gives {o[j]!r}, in the original batch {b[perm][j]!r}"
+    for k in (1, n // 2, n - 1):
+        o1, o2 = fn(cp(range(0, k))), fn(cp(range(k, n)))
+        for a, b2, b in zip(o1, o2, base):
+            got = np.concatenate([np.atleast_1d(a), np.atleast_1d(b2)])
+            if not same(got, b):
+                return "results depend on how the batch is split", f"split at {k}: {got!r} vs whole batch {b!r}"
+    return None
 
 
 MANIFEST_ENTRY = {
